@@ -404,8 +404,9 @@ func (r *vsRunner) vsPointers(key ChannelKey) [][2]telem.TimeStamp {
 	return out
 }
 
-// cutsInexactDomain reports whether a bound of the delete falls inside a stored domain
-// (of a named channel) whose start is not the timestamp of an index sample. File
+// cutsInexactDomain reports whether a bound of the delete falls - in one of the ways that
+// trigger the known defect - inside a stored domain (of a named channel) whose start is
+// not the timestamp of an index sample. File
 // rollover continues a domain at lastTimestamp+1ns, and a writer may start before its
 // first sample; both create such domains. Used only to attribute mismatches to the
 // known finding about deletes in those domains.
@@ -425,7 +426,22 @@ func (r *vsRunner) cutsInexactDomain(prev *vsStep, a vsDeleteArgs) bool {
 			if idx[p[0]] {
 				continue
 			}
-			if (p[0] <= lo && lo < p[1]) || (p[0] <= hi && hi < p[1]) {
+			if c == "I" {
+				// the index channel's own inexact-start domains: any bound inside
+				if (p[0] <= lo && lo < p[1]) || (p[0] <= hi && hi < p[1]) {
+					return true
+				}
+				continue
+			}
+			// data channels: measured on the unchanged tree (every delete range over rollover
+			// and early-start layouts), the defect shows when the END bound lies in such a
+			// domain at a point that is not an index sample, or the START bound lies in it
+			// exactly on an index sample; the other combinations are handled correctly and
+			// stay verdict-bearing
+			if p[0] <= hi && hi < p[1] && !idx[hi] {
+				return true
+			}
+			if p[0] <= lo && lo < p[1] && idx[lo] {
 				return true
 			}
 		}
